@@ -59,6 +59,8 @@ fn main() {
             "C06" => nqverif::c06::replay(case),
             "C07" => nqverif::c07::replay(case),
             "C08" => nqverif::c08::replay(case),
+            "C11" => nqverif::c11::replay(case),
+            "C13" => nqverif::c13::replay(case),
             _ => {
                 println!("{}", serde_json::to_string_pretty(case).unwrap());
                 0
@@ -71,6 +73,8 @@ fn main() {
         "C06" => nqverif::c06::run(&args),
         "C07" => nqverif::c07::run(&args),
         "C08" => nqverif::c08::run(&args),
+        "C11" => nqverif::c11::run(&args),
+        "C13" => nqverif::c13::run(&args),
         _ => {
             eprintln!("MACHINERY unknown property {prop}");
             2
